@@ -24,6 +24,10 @@ type KScenario struct {
 	Drivers [][]KOp `json:"drivers"`
 	Profile string  `json:"profile"`
 	NH      int     `json:"nh"`
+	// Self lists the instances (1 = first started, ...) whose function returns by itself, without having been told to
+	// stop, after SelfNops scheduling points
+	Self     []int `json:"self,omitempty"`
+	SelfNops int   `json:"self_nops,omitempty"`
 }
 
 type kExec struct {
@@ -32,11 +36,27 @@ type kExec struct {
 	mu    sync.Mutex
 	dones map[int]func()
 	inst  atomic.Int32
+	sc    *KScenario
 }
 
 func (x *kExec) fn(stop <-chan struct{}) {
 	i := int(x.inst.Add(1))
 	x.e.R.Add(rec.Ev{"ev": "istart", "i": i})
+	for _, s := range x.sc.Self {
+		if s == i {
+			// returns by itself; a monitor (not a driver goroutine) reports when the stop channel handed to this
+			// instance is closed eventually
+			for k := 0; k < x.sc.SelfNops; k++ {
+				ctl.Gate("drv.fn.linger")
+			}
+			x.e.R.Add(rec.Ev{"ev": "iselfend", "i": i})
+			go func() {
+				<-stop
+				x.e.R.Add(rec.Ev{"ev": "izstop", "i": i})
+			}()
+			return
+		}
+	}
 	ctl.Gate("drv.fn.wait")
 	<-stop
 	x.e.R.Add(rec.Ev{"ev": "isawstop", "i": i})
@@ -107,12 +127,20 @@ func genWorkerScenario(rng *rand.Rand, profile, mode string) any {
 		sc.Drivers = append(sc.Drivers, ops)
 	}
 	sc.NH = h
+	if rng.Intn(3) == 0 {
+		for i := 1; i <= 3; i++ {
+			if rng.Intn(2) == 0 {
+				sc.Self = append(sc.Self, i)
+			}
+		}
+		sc.SelfNops = rng.Intn(6)
+	}
 	return sc
 }
 
 func runWorkerExec(execID int, sci any, e *Env) []rec.Ev {
 	sc := sci.(*KScenario)
-	x := &kExec{e: e, w: new(bigbuff.Worker), dones: map[int]func(){}}
+	x := &kExec{e: e, w: new(bigbuff.Worker), dones: map[int]func(){}, sc: sc}
 	e.R.Add(rec.Ev{"ev": "reset", "exec": execID, "mode": e.Mode})
 	for i, ops := range sc.Drivers {
 		ops := ops
